@@ -19,6 +19,7 @@ CfgC == [ls |-> Gl(0, 0, 1, 0, 2), rs |-> Gl(0, 9, 1, 0, 0), pfs |-> Fil,
          ilp |-> 0, club |-> 5, widow |-> -5, broken |-> 0, widths |-> <<50, 40>>, indents |-> <<1, 2, 3>>]
 
 ConfigsQuick == {CfgA, CfgB, CfgC}
+ConfigsOne == {CfgA}
 KindsAll == {"c", "g", "p", "x", "n", "d0", "d1", "d2", "d3"}
 KindsCore == {"c", "g", "p", "x", "d2"}
 NoDevs == {}
